@@ -319,6 +319,13 @@ func (c WTVarIntSliceWrapper) Read(data []byte, ptr unsafe.Pointer, wt plenccore
 		// Ensure the GC knows the type of this slice.
 		h.Data = unsafe_NewArray(c.EltType, int(count))
 		h.Cap = int(count)
+	} else if _, ok := c.Underlying.(PointerWrapper); ok {
+		// We're going to re-use the backing array. Pointer elements are only
+		// allocated if they are nil, so old pointers (which may be shared with
+		// other elements or with the caller) must not survive.
+		for i := 0; i < count; i++ {
+			typedmemclr(unpackEFace(c.EltType).data, unsafe.Add(h.Data, i*int(c.EltSize)))
+		}
 	}
 	h.Len = count
 
